@@ -427,30 +427,44 @@ def kernel_stage(ctx, cov):
     for ln in pool: by_op[ln.split(" ", 1)[0]].append(ln)
     kc["ops_without_generated_lines"] = sorted(op for op in wanted if not by_op.get(op))
     tested, per_dir, evals = {}, {}, 0
-    for h in hs:
-        if h.dir in optional:
-            if time.time() - t0 > QUICK_EXTRA_BUDGET_S: continue
-            dirs.append(h.dir) if h.dir not in dirs else None
+    from concurrent.futures import ThreadPoolExecutor
+    PAR = 4
+    def work(h):
         lines = [ln for op in sorted(h.opmap) for ln in by_op.get(op, [])]
         td = time.time()
         n, bad = run_dir(ctx, h, lines) if lines else (0, [])
+        return h, lines, n, bad, time.time() - td
+    todo = [h for h in hs if h.dir in dirs]; opt = [h for h in hs if h.dir in optional]
+    results = []
+    with ThreadPoolExecutor(max_workers=PAR) as ex:
+        results += list(ex.map(work, todo))
+        while opt and time.time() - t0 <= QUICK_EXTRA_BUDGET_S:          # quick tier only: further directories while the budget lasts
+            chunk, opt = opt[:PAR], opt[PAR:]
+            for h in chunk:
+                if h.dir not in dirs: dirs.append(h.dir)
+            results += list(ex.map(work, chunk))
+    for h, lines, n, bad, wall in results:
         evals += n
         cnt = collections.Counter(ln.split(" ", 1)[0] for ln in lines)
         per_dir["%s#%d" % (h.dir, h.round)] = {"kernels_linked": len(h.kernels()), "kernels_with_ops": len(set(k for kk in h.opmap.values() for k in kk)),
-                                               "lines": n, "ops": dict(cnt), "wall_s": round(time.time() - td, 1)}
+                                               "lines": n, "ops": dict(cnt), "wall_s": round(wall, 1)}
         for k in h.kernels():
             ops = [op for op in h.ops_of(k) if cnt.get(op)]
             if ops: tested[k.path] = {"ops": ops, "lines": sum(cnt[o] for o in ops)}
         seen = set()
-        for kk, ln, a, b, note in bad:
+        for kk, ln, a, b, note in sorted(bad, key=lambda t: len(t[1])):      # shortest failing line per (kernel, op)
             key = tuple(k.path for k in kk) + (ln.split(" ", 1)[0],)
-            if key in seen: continue            # one replay per (kernel, op)
+            if key in seen: continue
             seen.add(key)
             p = write_kernel_replay(ctx, h, kk, ln, a, b, note)
             names = ", ".join(k.path for k in kk) or ("directory " + h.dir)
             log("KERNEL DISAGREEMENT %s: %s\n  kernel: %s\n  model : %s" % (names, ln[:200], a[:200], b[:200]))
             print("DISAGREE kernel %s: %s\n  kernel: %s\n  model : %s" % (names, ln[:300], a[:300], b[:300]))
             out.append(("asm kernel %s | %s | impl=%s | model=%s" % (names, ln[:300], a[:200], b[:200]), p))
+    # inventory over ALL directories (their harnesses are built and cached even when they do not run in this tier)
+    with_op = set(k.path for h in hs for kk in h.opmap.values() for k in kk)
+    kc["with_model_op_all_directories"] = len(with_op)
+    kc["no_model_op_all_directories"] = sorted("%s (%s)" % (k.path, ",".join(k.funcs) or "no __gmpn_ entry point") for k in ks if k.executable and k.path not in with_op)
     kc["directories_this_run"] = dirs
     kc["tested"] = len(tested); kc["tested_detail"] = tested; kc["per_directory"] = per_dir; kc["evaluations"] = evals
     in_run = [k for k in ks if k.executable and k.dir in dirs]
@@ -534,12 +548,46 @@ def other_value_lines(ctx, tree, harness, cap=15000):
             log("generator props.%s skipped in rebuild stage: %s" % (name, str(e)[:200]))
     return out[:cap]
 
+def fat_dispatch(ctx, tree):
+    """which kernels the fat library selects on this CPU: run __gmpn_cpuvec_init, read the function pointers of __gmpn_cpuvec,
+    name them through the symbol table; every selected kernel must be one the host can execute (tools/asmkern.py ISA check)"""
+    src = os.path.join(tree, "c14_fatprobe.c"); exe = os.path.join(tree, "c14_fatprobe")
+    open(src, "w").write('#include <stdio.h>\n#include "mpir.h"\n#include "gmp-impl.h"\nint main(void){ __gmpn_cpuvec_init(); unsigned long *p = (unsigned long *) &__gmpn_cpuvec;\n'
+                         ' for (unsigned i = 0; i < sizeof(__gmpn_cpuvec) / 8; i++) printf("%lx\\n", p[i]); return 0; }\n')
+    rc, out = vlib.run("gcc -w -no-pie -DHAVE_CONFIG_H -I%s %s %s/.libs/libmpir.a -o %s" % (tree, src, tree, exe))
+    if rc != 0: raise vlib.BuildError("fat probe: " + out[-800:])
+    rc, words = vlib.run([exe]); rc2, nm = vlib.run(["nm", exe])
+    addr = {}
+    for ln in nm.split("\n"):
+        f = ln.split()
+        if len(f) == 3 and f[1] in "Tt" and f[2].startswith("__gmpn_"): addr.setdefault(int(f[0], 16), f[2])
+    ks = asmkern.load(ctx.build); dirs = sorted(set(k.dir for k in ks), key=len, reverse=True)
+    sel, bad = {}, []
+    for w in words.split():
+        sym = addr.get(int(w, 16))
+        if not sym: continue
+        name = sym[len("__gmpn_"):]; d = None
+        for cand in dirs:
+            suf = "_" + cand.replace("/", "_")
+            if cand != "." and name.endswith(suf): d = cand; name = name[: -len(suf)]; break
+        if d is None and name.endswith("_fat"): name = name[:-4]; d = "fat (C)"               # mpn/x86_64/fat/*.c: portable C fallbacks
+        if d is None and name.endswith("_x86_64"): name = name[:-7]; d = "."                  # top-level mpn/x86_64/*.as{,m}
+        sel[name] = "%s [%s]" % (sym, d or "?")
+        for k in ks:
+            if d and k.dir == d and name in k.funcs and not k.executable: bad.append("%s -> %s needs %s" % (sym, k.path, k.missing))
+    return sel, bad
+
 def run_variant(ctx, var, jobs, cov):
     tag, desc, rel, cflags, cfg = var
     t0 = time.time(); tree = None; out = []; info = {"what": desc}
     try:
         tree, harness = build_variant(ctx, var, jobs)
         info["build_s"] = round(time.time() - t0, 1)
+        if cfg and "--enable-fat" in cfg:
+            info["fat_dispatch"], badsel = fat_dispatch(ctx, tree)
+            for b in badsel:
+                p = replay_path(ctx.pid); open(p, "w").write("# property %s stage rebuild (--enable-fat)\n# the fat library selects a kernel this CPU cannot execute: %s\n" % (ctx.pid, b))
+                out.append(("fat dispatch selects a kernel the CPU cannot execute: " + b, p))
         have = harness_op_names()
         thr = dict(dict(getattr(ctx, "shipped_vectors", [])).get(rel, [])) if rel else sel_vector(ctx)
         rng = random.Random("C14-var-%s-%d" % (tag, ctx.seed))
